@@ -1090,7 +1090,7 @@ fn onehop_strategy() -> impl Strategy<Value = OhCase> {
 
 fn run(ctx: &Ctx) {
     let fam = topogen::small_family();
-    let step = ctx.tier.pick(60u64, 2);
+    let step = ctx.tier.pick(12u64, 1);
     let off = ctx.seed % step;
     ctx.run_enum("authentic-paths-all-single-corruptions", fam.len() as u64, false, |i| {
         (i % step == off).then(|| Sweep { topo: fam[i as usize].clone(), ts: [1_700_000_000u32, 1000, u32::MAX - 100_000][(i % 3) as usize], bseed: i, exp: [None, Some(0), Some(255)][((i / 3) % 3) as usize] })
